@@ -2,7 +2,7 @@
     executed by the interpreter of Spec/Robot.v, reproduces the tracked volumes (exactly when every pipetted
     volume has at most two decimals, within n/200 otherwise); (2) the composition refinement for [distribute]. *)
 From Robo Require Import Prelude Str Wells Utils Labware Tips Records Partition Params Worklist EvoCmd
-  Program Invariants Robot Gwl WellsProofs LabwareProofs RecordsProofs RefinementProofs.
+  Program Invariants Robot Gwl CmdParse WellsProofs LabwareProofs RecordsProofs RefinementProofs TextExtraProofs.
 From Coq Require Import Lqa Permutation Sorting.Sorted.
 #[local] Open Scope Q_scope.
 
@@ -167,6 +167,26 @@ Proof.
   destruct fp as [|a r]; [congruence|]. eexists. reflexivity.
 Qed.
 
+(** the value [pynum_of_text] gives to a digit string is the value [tx_ival] / [frac_val] of Spec/CmdParse.v *)
+Lemma digits_val_ival s : forall acc, digits_val s acc = tx_ival s acc.
+Proof.
+  induction s as [|a r IH]; intro acc; cbn [digits_val tx_ival]; [reflexivity|].
+  rewrite IH. f_equal. unfold tx_dN, nat_of_ascii. rewrite Nat2N.inj_sub, N2Nat.id. change (N.of_nat 48) with 48%N. lia.
+Qed.
+
+(** a non-negative dyadic rational (every Python float is one): the text written by [repr(float)] (exact
+    terminating expansion, see the caveat in Props/C09.v) is read back to a number of the same value *)
+Lemma pynum_of_text_float_value q k : 0 <= q -> Npos (Qden (Qred q)) = (2 ^ N.of_nat k)%N ->
+  exists v, pynum_of_text (render_pynum (PyF q)) = Some v /\ pynum_q v == q.
+Proof.
+  intros Hq Hd. destruct (tx_pyrepr_float_value q k Hq Hd) as (i & fp & P & _ & Hne & V).
+  unfold pynum_of_text. cbn [render_pynum]. rewrite P. destruct fp as [|a r]; [congruence|].
+  eexists. split; [reflexivity|]. cbn [pynum_q]. rewrite <- V. unfold dec_val.
+  set (fp := String a r). rewrite digits_val_ival, <- (tx_frac_val_ival fp).
+  pose proof (tx_p10_pos (String.length fp)) as P10. unfold tx_p10 in *. field.
+  intro C. rewrite C in P10. exact (Qlt_irrefl 0 P10).
+Qed.
+
 (** C01_rendered_record, R *)
 Lemma rendered_R f : rc_r_nosep f -> rc_r_nonneg f ->
   match r_volume f with PyI z => (0 <= z)%Z | PyF _ => True end ->
@@ -181,6 +201,17 @@ Proof.
     rewrite <- Ev. apply set_r_volume_same.
   - destruct (pynum_of_text_float q) as [v Hq]. rewrite Hq. exists v. rewrite rfields_of_prd_of by exact Hn.
     split; [reflexivity|]. intros z0 E. discriminate.
+Qed.
+
+(** C01_rendered_record, R with a float volume: the number read back has the value of the float *)
+Lemma rendered_R_float f q k : rc_r_nosep f -> rc_r_nonneg f ->
+  r_volume f = PyF q -> 0 <= q -> Npos (Qden (Qred q)) = (2 ^ N.of_nat k)%N ->
+  exists v, read_line (render (RR f)) = Some (RR (set_r_volume f v)) /\ pynum_q v == q.
+Proof.
+  intros Hs Hn Ev Hq Hd. unfold read_line. rewrite (rc_roundtrip_R_rec f Hs Hn). cbn [srec_of_prec].
+  change (pr_volume (rc_prd_of f)) with (render_pynum (r_volume f)). rewrite Ev.
+  destruct (pynum_of_text_float_value q k Hq Hd) as (v & Hv & Hval). rewrite Hv.
+  exists v. rewrite rfields_of_prd_of by exact Hn. split; [reflexivity|exact Hval].
 Qed.
 
 (** C01_rendered_record, the records that do not move liquid *)
@@ -227,27 +258,41 @@ Definition cents_ok (r : srec) : Prop :=
 Definition r_int (r : srec) : Prop :=
   match r with RR f => exists z, r_volume f = PyI z | _ => True end.
 
+(** ... or a float: a non-negative dyadic rational (what a Python float is) *)
+Definition r_num (r : srec) : Prop :=
+  match r with
+  | RR f => (exists z, r_volume f = PyI z) \/
+            (exists q k, r_volume f = PyF q /\ 0 <= q /\ Npos (Qden (Qred q)) = (2 ^ N.of_nat k)%N)
+  | _ => True
+  end.
+
+Lemma r_int_num r : r_int r -> r_num r.
+Proof. destruct r; cbn [r_int r_num]; try (intros _; exact I). intro H. left. exact H. Qed.
+
 Definition ad_near (e : Q) (f f' : adfields) : Prop :=
   ad_rack_label f' = ad_rack_label f /\ ad_position f' = ad_position f /\
   Qabs (ad_volume f' - ad_volume f) <= e.
 
-(** [r'] is [r] up to an error [e] in the volume of an A / D record *)
+(** [r'] is [r] up to an error [e] in the volume of an A / D record; the volume of an R record may be
+    another representation of the same number (an int stays that int) *)
 Definition srec_near (e : Q) (r r' : srec) : Prop :=
   match r with
   | RA f => exists f', r' = RA f' /\ ad_near e f f'
   | RD f => exists f', r' = RD f' /\ ad_near e f f'
+  | RR f => exists v, r' = RR (set_r_volume f v) /\ pynum_q v == pynum_q (r_volume f) /\
+                      (forall z, r_volume f = PyI z -> v = PyI z)
   | _ => r' = r
   end.
 
 Lemma Qabs_zero_le x : x == 0 -> Qabs x <= 0.
 Proof. intro H. rewrite H. cbn. lra. Qed.
 
-Lemma read_line_near r : rec_valid r -> r_int r ->
+Lemma read_line_near r : rec_valid r -> r_num r ->
   exists r', read_line (render r) = Some r' /\ srec_near (1 # 200) r r' /\
              (cents_ok r -> srec_near 0 r r').
 Proof.
   destruct (rendered_simple) as (S1 & S2 & S3 & S4 & S5 & S6 & S7).
-  destruct r as [f|f|f|[n|]| | | |t|i|s]; cbn [rec_valid r_int cents_ok]; intros Hv Hi.
+  destruct r as [f|f|f|[n|]| | | |t|i|s]; cbn [rec_valid r_num cents_ok]; intros Hv Hi.
   - destruct Hv as (Hs & Hp & Hv). exists (RA (text_ad f)).
     split; [apply read_line_A; assumption|]. split.
     + exists (text_ad f). split; [reflexivity|]. split; [reflexivity|]. split; [reflexivity|apply text_ad_bound].
@@ -258,9 +303,19 @@ Proof.
     + exists (text_ad f). split; [reflexivity|]. split; [reflexivity|]. split; [reflexivity|apply text_ad_bound].
     + intros [z Hz]. exists (text_ad f). split; [reflexivity|]. split; [reflexivity|]. split; [reflexivity|].
       apply Qabs_zero_le. rewrite (text_ad_exact f z Hz). ring.
-  - destruct Hv as (Hs & Hn & Hv). destruct Hi as [z Hz].
-    destruct (rendered_R f Hs Hn Hv) as (v & Hr & Hex). destruct (Hex z Hz) as [_ Hf].
-    rewrite Hf in Hr. exists (RR f). split; [exact Hr|]. split; [reflexivity|intros _; reflexivity].
+  - destruct Hv as (Hs & Hn & Hv). destruct Hi as [[z Hz]|(q & k & Hq & Hq0 & Hd)].
+    + destruct (rendered_R f Hs Hn Hv) as (v & Hr & Hex). destruct (Hex z Hz) as [Hvz Hf].
+      exists (RR (set_r_volume f v)). split; [exact Hr|].
+      assert (Hnear : srec_near 0 (RR f) (RR (set_r_volume f v))).
+      { exists v. split; [reflexivity|]. split; [rewrite Hvz, Hz; reflexivity|].
+        intros z0 E. rewrite Hz in E. injection E as <-. exact Hvz. }
+      split; [exact Hnear|intros _; exact Hnear].
+    + destruct (rendered_R_float f q k Hs Hn Hq Hq0 Hd) as (v & Hr & Hval).
+      exists (RR (set_r_volume f v)). split; [exact Hr|].
+      assert (Hnear : srec_near 0 (RR f) (RR (set_r_volume f v))).
+      { exists v. split; [reflexivity|]. split; [rewrite Hq; exact Hval|].
+        intros z0 E. rewrite Hq in E. discriminate E. }
+      split; [exact Hnear|intros _; exact Hnear].
   - exists (RW (Some n)). split; [apply S2; exact Hv|]. split; [reflexivity|intros _; reflexivity].
   - exists (RW None). split; [exact S1|]. split; [reflexivity|intros _; reflexivity].
   - exists RWD. split; [exact S3|]. split; [reflexivity|intros _; reflexivity].
@@ -271,7 +326,7 @@ Proof.
   - contradiction.
 Qed.
 
-Lemma read_lines_near recs : Forall rec_valid recs -> Forall r_int recs ->
+Lemma read_lines_near recs : Forall rec_valid recs -> Forall r_num recs ->
   exists recs', read_lines (map render recs) = Some recs' /\
     Forall2 (srec_near (1 # 200)) recs recs' /\
     (Forall cents_ok recs -> Forall2 (srec_near 0) recs recs').
@@ -453,38 +508,40 @@ Proof.
     eapply Qle_trans; [|exact Hmono]. apply Qabs_Qle_condition. split; lra.
 Qed.
 
-Lemma dispense_all_near E d label v ps : forall rb rb' rb1,
+Lemma dispense_all_near E d label v v' ps : v' == v -> forall rb rb' rb1,
   racks_near E (rb_racks rb) (rb_racks rb') -> dispense_all false d rb label ps v = Some rb1 ->
-  exists rb1', dispense_all false d rb' label ps v = Some rb1' /\ racks_near E (rb_racks rb1) (rb_racks rb1').
+  exists rb1', dispense_all false d rb' label ps v' = Some rb1' /\ racks_near E (rb_racks rb1) (rb_racks rb1').
 Proof.
-  induction ps as [|p rest IH]; intros rb rb' rb1 Hnear H; cbn [dispense_all] in *.
+  intro Hvv. induction ps as [|p rest IH]; intros rb rb' rb1 Hnear H; cbn [dispense_all] in *.
   - injection H as <-. exists rb'. split; [reflexivity|exact Hnear].
   - destruct (do_dispense false d rb label p v) as [rb2|] eqn:Ed; [|discriminate].
-    destruct (do_dispense_near E E 0 d rb rb' label p v v rb2 Hnear) as (rb2' & Ed' & Hnear2).
-    + apply Qabs_zero_le. ring.
+    destruct (do_dispense_near E E 0 d rb rb' label p v v' rb2 Hnear) as (rb2' & Ed' & Hnear2).
+    + apply Qabs_zero_le. rewrite Hvv. ring.
     + intros k j. destruct (hit_ad _ _ _ _ _ _ _); lra.
     + exact Ed.
     + rewrite Ed'. apply (IH rb2 rb2' rb1 Hnear2 H).
 Qed.
 
-Lemma do_reagent_near E d rb rb' f rb1 :
+Lemma do_reagent_near E d rb rb' f v rb1 : pynum_q v == pynum_q (r_volume f) ->
   racks_near E (rb_racks rb) (rb_racks rb') -> do_reagent false d rb f = Some rb1 ->
-  exists rb1', do_reagent false d rb' f = Some rb1' /\ racks_near E (rb_racks rb1) (rb_racks rb1').
+  exists rb1', do_reagent false d rb' (set_r_volume f v) = Some rb1' /\
+               racks_near E (rb_racks rb1) (rb_racks rb1').
 Proof.
-  intros Hnear H. unfold do_reagent in *.
+  intros Hvv Hnear H. unfold do_reagent in *.
+  cbn [set_r_volume r_src_label r_src_start r_src_end r_dst_label r_dst_start r_dst_end r_exclude r_volume].
   destruct (find_rack (rb_racks rb) (r_src_label f)) as [k|] eqn:Hf; [|discriminate].
   destruct (nth_error (rb_racks rb) k) as [r|] eqn:Hr; [|discriminate].
   destruct (range_index d (rk_geom r) _ _) as [i|] eqn:Hu; [|discriminate].
   cbn [andb] in H.
   destruct (racks_near_nth _ _ _ _ _ Hnear Hr) as (r' & Hr' & Hn' & Hg' & (_ & _ & _ & Hd)).
   rewrite find_rack_name, (proj1 Hnear), <- find_rack_name, Hf, Hr', Hg', Hu. cbn [andb].
-  eapply dispense_all_near; [|exact H]. unfold with_rack. cbn [rb_racks].
+  eapply dispense_all_near; [exact Hvv| |exact H]. unfold with_rack. cbn [rb_racks].
   match goal with |- racks_near _ (upd _ _ (set_rack_vol _ _ ?a)) (upd _ _ (set_rack_vol _ _ ?b)) =>
     change (set_rack_vol r i a) with (mk_rack r (upd (rk_vols r) i a) (rk_comp r));
     change (set_rack_vol r' i b) with (mk_rack r' (upd (rk_vols r') i b) (rk_comp r')) end.
   apply (racks_near_upd E); try assumption.
   - intros k1 j. apply Qle_refl.
-  - specialize (Hd i). apply Qabs_Qle_condition in Hd. apply Qabs_Qle_condition. split; lra.
+  - specialize (Hd i). apply Qabs_Qle_condition in Hd. rewrite Hvv. apply Qabs_Qle_condition. split; lra.
 Qed.
 
 Lemma interp1_near E E' e d rb rb' r r' rb1 :
@@ -504,7 +561,8 @@ Proof.
     eapply do_aspirate_near; eassumption.
   - destruct Hr as (f' & -> & Hl & Hp & Hv). cbn [interp1 hit_rec] in *. rewrite Hl, Hp.
     eapply do_dispense_near; eassumption.
-  - subst r'. cbn [interp1] in *. destruct (do_reagent_near E d rb rb' f rb1 Hnear H) as (rb1' & A & B).
+  - destruct Hr as (v & -> & Hvv & _). cbn [interp1] in *.
+    destruct (do_reagent_near E d rb rb' f v rb1 Hvv Hnear H) as (rb1' & A & B).
     exists rb1'. split; [exact A|]. eapply racks_near_weaken; eassumption.
 Qed.
 
@@ -600,19 +658,25 @@ Theorem rendered_records_exact recs : Forall rec_valid recs -> Forall r_int recs
                          | _ => r' = r
                          end) recs recs'.
 Proof.
-  intros Hv Hi Hc. destruct (read_lines_near recs Hv Hi) as (recs' & Hr & _ & Hex).
-  exists recs'. split; [exact Hr|]. eapply Forall2_imp; [|apply Hex; exact Hc].
-  intros r r' Hn. destruct r; cbn [srec_near] in Hn; try exact Hn.
+  intros Hv Hi Hc.
+  assert (Hnum : Forall r_num recs) by (eapply Forall_impl; [|exact Hi]; exact r_int_num).
+  destruct (read_lines_near recs Hv Hnum) as (recs' & Hr & _ & Hex).
+  exists recs'. split; [exact Hr|]. specialize (Hex Hc). clear Hr Hv Hnum Hc.
+  induction Hex as [|r r' rest rest' Hn Hrest IH]; [constructor|].
+  inversion Hi as [|r0 l0 Hi1 Hi2]; subst. constructor; [|apply IH; exact Hi2].
+  destruct r; cbn [srec_near r_int] in *; try exact Hn.
   - destruct Hn as (f' & -> & A & B & C). exists f'. repeat split; try assumption.
     apply Qabs_Qle_condition in C. lra.
   - destruct Hn as (f' & -> & A & B & C). exists f'. repeat split; try assumption.
     apply Qabs_Qle_condition in C. lra.
+  - destruct Hn as (v & -> & _ & Hz). destruct Hi1 as [z Ez]. rewrite (Hz z Ez), <- Ez, set_r_volume_same.
+    reflexivity.
 Qed.
 
 (** C01_rendered_exact: executing the text = executing the records, when every A / D volume has at most
     two decimals and every R volume is an int *)
 Theorem rendered_exact d rb recs rb1 :
-  Forall rec_valid recs -> Forall r_int recs -> Forall cents_ok recs ->
+  Forall rec_valid recs -> Forall r_num recs -> Forall cents_ok recs ->
   interp false d rb recs = Some rb1 ->
   exists rb1', interp_text false d rb (map render recs) = Some rb1' /\
                Forall2 rack_eqv (rb_racks rb1) (rb_racks rb1').
@@ -625,7 +689,7 @@ Qed.
 
 (** C01_rendered_bound: in general every well is within (number of A / D records addressing it) / 200 *)
 Theorem rendered_bound d rb recs rb1 :
-  Forall rec_valid recs -> Forall r_int recs ->
+  Forall rec_valid recs -> Forall r_num recs ->
   interp false d rb recs = Some rb1 ->
   exists rb1', interp_text false d rb (map render recs) = Some rb1' /\
     racks_near (fun k j => inject_Z (Z.of_nat
@@ -649,7 +713,7 @@ Corollary rendered_bound_single d rb f (asp : bool) rb1 :
 Proof.
   intros Hv H.
   assert (Hv' : Forall rec_valid [if asp then RA f else RD f]) by (constructor; [destruct asp; exact Hv|constructor]).
-  assert (Hi' : Forall r_int [if asp then RA f else RD f]) by (constructor; [destruct asp; exact I|constructor]).
+  assert (Hi' : Forall r_num [if asp then RA f else RD f]) by (constructor; [destruct asp; exact I|constructor]).
   destruct (rendered_bound d rb [if asp then RA f else RD f] rb1 Hv' Hi') as (rb1' & A & B).
   { cbn [interp]. rewrite H. reflexivity. }
   exists rb1'. split; [exact A|]. eapply racks_near_weaken; [exact B|].
@@ -672,7 +736,7 @@ Theorem run_text_exact s0 ops :
   forallb wl_op ops = true -> Forall (op_ok s0) ops ->
   Forall (fun e => e = None) (snd (run s0 ops)) ->
   Forall rec_valid (w_recs (st_wl (fst (run s0 ops)))) ->
-  Forall r_int (w_recs (st_wl (fst (run s0 ops)))) ->
+  Forall r_num (w_recs (st_wl (fst (run s0 ops)))) ->
   Forall cents_ok (w_recs (st_wl (fst (run s0 ops)))) ->
   exists rb, interp_text false (w_dev (st_wl s0)) (robot_of (st_lw s0))
                (map render (w_recs (st_wl (fst (run s0 ops))))) = Some rb /\
@@ -690,7 +754,7 @@ Theorem run_text_bound s0 ops :
   forallb wl_op ops = true -> Forall (op_ok s0) ops ->
   Forall (fun e => e = None) (snd (run s0 ops)) ->
   Forall rec_valid (w_recs (st_wl (fst (run s0 ops)))) ->
-  Forall r_int (w_recs (st_wl (fst (run s0 ops)))) ->
+  Forall r_num (w_recs (st_wl (fst (run s0 ops)))) ->
   exists rb, interp_text false (w_dev (st_wl s0)) (robot_of (st_lw s0))
                (map render (w_recs (st_wl (fst (run s0 ops))))) = Some rb /\
     forall k L r j, nth_error (st_lw (fst (run s0 ops))) k = Some L -> nth_error (rb_racks rb) k = Some r ->
@@ -1364,8 +1428,8 @@ Qed.
 
 (* ================================================================== part 3: the records of a program are valid *)
 
-(** valid, and an R record has an int volume *)
-Definition rec_good (r : srec) : Prop := rec_valid r /\ r_int r.
+(** valid, and an R record has an int volume or a float (dyadic, non-negative) volume *)
+Definition rec_good (r : srec) : Prop := rec_valid r /\ r_num r.
 
 Definition emits_good (w w' : wstate) : Prop := exists new, w' = emit w new /\ Forall rec_good new.
 
@@ -1452,19 +1516,31 @@ Proof.
   - destruct (w_dev w); try (eapply flush_good; exact H); injection H as <- <-; apply emits_good_refl.
 Qed.
 
+(** the volume argument of reagent_distribution / distribute: an int, or a float that is a dyadic rational *)
+Definition rvol_text_ok (v : rvol) : Prop :=
+  (exists z, v = RVInt z) \/
+  (exists q k, v = RVFloat (XQ q) /\ Npos (Qden (Qred q)) = (2 ^ N.of_nat k)%N).
+
 Lemma reagent_good w a w' e :
-  (exists z, rd_volume a = RVInt z) -> reagent_distribution w a = (w', e) -> emits_good w w'.
+  rvol_text_ok (rd_volume a) -> reagent_distribution w a = (w', e) -> emits_good w w'.
 Proof.
-  intros [z Hz] H. destruct e as [e|]; [rewrite (rc_reagent_err _ _ _ _ H); apply emits_good_refl|].
+  intros Hvt H. destruct e as [e|]; [rewrite (rc_reagent_err _ _ _ _ H); apply emits_good_refl|].
   destruct (rc_reagent_ok _ _ _ H)
     as (f & -> & _ & _ & _ & _ & _ & _ & _ & _ & _ & _ & _ & _ & Hvol & Hdr & _ & _ & Hm1 & Hm2 & Hns & _ &
         P1 & P2 & P3 & P4 & Hv0 & _ & _ & _ & PX & C1 & C2).
-  rewrite Hz in Hvol. apply emits_good_one. split; [|exists z; exact Hvol]. cbn [rec_valid].
-  split; [exact Hns|]. split.
-  - split; [exact P1|]. split; [exact P2|]. split; [exact P3|]. split; [exact P4|].
-    split; [exact C1|]. split; [exact C2|exact PX].
-  - rewrite Hvol. rewrite Hvol in Hv0. cbn [pynum_q] in Hv0. change 0 with (inject_Z 0) in Hv0.
+  assert (Hnn : rc_r_nonneg f).
+  { split; [exact P1|]. split; [exact P2|]. split; [exact P3|]. split; [exact P4|].
+    split; [exact C1|]. split; [exact C2|exact PX]. }
+  destruct Hvt as [[z Hz]|(q & k & Hq & Hd)].
+  - rewrite Hz in Hvol. apply emits_good_one. split; [|left; exists z; exact Hvol]. cbn [rec_valid].
+    split; [exact Hns|]. split; [exact Hnn|].
+    rewrite Hvol. rewrite Hvol in Hv0. cbn [pynum_q] in Hv0. change 0 with (inject_Z 0) in Hv0.
     rewrite <- Zle_Qle in Hv0. exact Hv0.
+  - rewrite Hq in Hvol. destruct Hvol as (q' & Eq & Hvol). injection Eq as <-.
+    rewrite Hvol in Hv0. cbn [pynum_q] in Hv0.
+    apply emits_good_one. split.
+    + cbn [rec_valid]. split; [exact Hns|]. split; [exact Hnn|]. rewrite Hvol. exact I.
+    + right. exists q, k. split; [exact Hvol|]. split; [exact Hv0|exact Hd].
 Qed.
 
 Lemma emit_wells_good asp kw L : forall items w w' e,
@@ -1562,7 +1638,7 @@ Proof.
 Qed.
 
 Lemma distribute_good s ks kd dwells a s' e :
-  (exists z, d_volume a = RVInt z) ->
+  rvol_text_ok (d_volume a) ->
   distribute s ks kd dwells a = (s', e) -> emits_good (st_wl s) (st_wl s').
 Proof.
   intros H3. unfold distribute. cbv zeta. intro H.
@@ -1581,13 +1657,17 @@ Proof.
          eapply reagent_good; [|exact Er]; exact H3 end.
 Qed.
 
-(** the only argument the text-level theorems restrict: an int volume of distribute (a float volume is written
-    as Python's repr).  The DiTi index of set_diti and diti_reuse / multi_disp of distribute need no hypothesis:
+(** the only argument the text-level theorems restrict: the volume of distribute is an int or a float that is a
+    dyadic rational (every Python float is one; a float volume is written as its exact terminating expansion
+    and read back to the same value, [pynum_of_text_float_value]; see the printer caveat in Props/C09.v).
+    The DiTi index of set_diti and diti_reuse / multi_disp of distribute need no hypothesis:
     the methods reject negative values (since /repo commit 26768d9, finding F21), so an accepted call has
     non-negative ones and a rejected call appends nothing. *)
 Definition op_text_ok (o : op) : Prop :=
   match o with
-  | ODistribute _ _ _ a => exists z, d_volume a = RVInt z
+  | ODistribute _ _ _ a =>
+      (exists z, d_volume a = RVInt z) \/
+      (exists q k, d_volume a = RVFloat (XQ q) /\ Npos (Qden (Qred q)) = (2 ^ N.of_nat k)%N)
   | _ => True
   end.
 
@@ -1626,7 +1706,7 @@ Proof.
 Qed.
 
 Theorem run_records_valid s ops : w_recs (st_wl s) = [] -> forallb wl_op ops = true -> Forall op_text_ok ops ->
-  Forall rec_valid (w_recs (st_wl (fst (run s ops)))) /\ Forall r_int (w_recs (st_wl (fst (run s ops)))).
+  Forall rec_valid (w_recs (st_wl (fst (run s ops)))) /\ Forall r_num (w_recs (st_wl (fst (run s ops)))).
 Proof.
   intros Hrecs Hops Hok. destruct (run_good ops s Hops Hok) as (new & Hw & Hg). rewrite Hw.
   cbn [w_recs emit]. rewrite Hrecs. cbn [app].
